@@ -17,7 +17,7 @@
 (* `break` at size); MC_Bitmap checks ImplRange = Pages for every          *)
 (* argument of the small word.                                             *)
 (***************************************************************************)
-EXTENDS Word, FiniteSets, Sequences, TLC
+EXTENDS PageSet, FiniteSets, Sequences, TLC
 
 CONSTANTS InitBS,      \* byte sizes given to AtomicBitmap::new
           InitPS,      \* page sizes (non-zero)
@@ -41,20 +41,6 @@ Fresh(bs, ps) == [live |-> TRUE, bs |-> bs, ps |-> ps, dirty |-> {}]
 
 NP(b) == DivCeil(b.bs, b.ps)                 \* number of pages ( = len() )
 NW(b) == DivCeil(NP(b), WB)                  \* number of storage words
-
-\* ---- the meaning of a byte range ---------------------------------------
-\* pages of 0..np-1 that contain at least one byte of [s, s+l) below WORD
-Pages(np, ps, s, l) ==
-    IF l = 0 THEN {}
-    ELSE LET e == Min(s + (l - 1), WORD - 1)
-         IN  {p \in 0 .. np - 1 : p * ps <= e /\ p * ps + (ps - 1) >= s}
-
-\* set_reset_addr_range as written: first_bit ..= last_bit, break at size
-ImplRange(np, ps, s, l) ==
-    IF l = 0 THEN {}
-    ELSE LET first == s \div ps
-             lastb == SatAdd(s, l - 1) \div ps
-         IN  {n \in first .. Min(lastb, np - 1) : TRUE}
 
 PageOf(b, addr) == addr \div b.ps
 
